@@ -52,10 +52,24 @@ theorem Seq.substituteSymbols_congr {σ σ' : Dict Expr} (h : SameAssignment σ 
   | arithmetic i d => simp [Seq.substituteSymbols, h.subst]
   | geometric r => simp [Seq.substituteSymbols, h.subst]
   | closedForm s p n =>
-    simp only [Seq.substituteSymbols, h.subst]
-    have : ∀ o : Option Expr, o.map (Expr.subst σ) = o.map (Expr.subst σ') := by
-      intro o; cases o <;> simp [h.subst]
-    rw [this s, this p]
+    simp only [Seq.substituteSymbols]
+    have hl : ∀ (nm : String) (e : Expr), Expr.subst (σ.erase nm) e = Expr.subst (σ'.erase nm) e := by
+      intro nm e
+      apply subst_congr_lookup
+      intro x
+      rw [Dict.get?_erase_ite, Dict.get?_erase_ite, h.lookup x]
+    cases n with
+    | sym nm =>
+      simp only
+      have : ∀ o : Option Expr, o.map (Expr.subst (σ.erase nm)) = o.map (Expr.subst (σ'.erase nm)) := by
+        intro o; cases o <;> simp [hl nm]
+      rw [this s, this p]
+    | _ =>
+      simp only
+      first
+        | (have : ∀ o : Option Expr, o.map (Expr.subst σ) = o.map (Expr.subst σ') := by
+            intro o; cases o <;> simp [h.subst]
+           rw [this s, this p])
   | custom t i =>
     cases i with
     | sym it =>
